@@ -123,6 +123,11 @@ class CfgScenario(explore.Scenario):
                 out.append([m, ss])
         out.append(["ixor_self"])
         out.append(["isub_self"])
+        # observations are operations too: a lookup may plant hidden state
+        # (a cached view, a hint) that only a later edit + lookup exposes
+        for nm in sorted(w.nodes):
+            out.append(["adjacency", nm])
+        out.append(["iterate"])
         return out
 
     def prefix_ok(self, op):
@@ -142,6 +147,8 @@ class CfgScenario(explore.Scenario):
             new.discard(op[1])
         elif kind == "contains":
             want_ret = "bool:%s" % (op[1] in M)
+        elif kind in ("adjacency", "iterate"):
+            want_ret = "any"
         elif kind == "remove":
             if op[1] not in M:
                 want_exc = "KeyError"
@@ -178,6 +185,12 @@ class CfgScenario(explore.Scenario):
                 res = cfg.discard(self.edge(w, op[1], fresh=True))
             elif kind == "contains":
                 res = self.edge(w, op[1]) in cfg
+            elif kind == "adjacency":
+                node = w.nodes[op[1]]
+                res = (len(list(cfg.out_edges(node))), len(list(cfg.in_edges(node))),
+                       len(list(node.outgoing_edges)), len(list(node.incoming_edges)))
+            elif kind == "iterate":
+                res = (len(cfg), len(list(cfg)))
             elif kind == "pop":
                 res = cfg.pop()
             elif kind == "clear":
@@ -204,7 +217,9 @@ class CfgScenario(explore.Scenario):
             if exc is not None:
                 return v
         if exc is None:
-            if want_ret == "none" and res is not None:
+            if want_ret == "any":
+                pass
+            elif want_ret == "none" and res is not None:
                 v.append(("C11/return:%s" % kind, repr(res)))
             elif want_ret.startswith("bool:"):
                 if str(res) != want_ret[5:]:
